@@ -103,8 +103,21 @@ def gen_call(rng):
         return None
     Ws = [np.array(w, dtype=float) for w in est.W]
     c = rng.randrange(len(Ws))
-    how = rng.choice(["member", "fresh", "fresh", "centre"])
-    if how == "member":
+    how = rng.choice(["member", "fresh", "fresh", "centre", "on_centre"])
+    if how == "on_centre":
+        # the sample coincides with the current centre of the (possibly grown) category
+        x = X[rng.randrange(len(X))].copy()
+        try:
+            if getattr(est, "d_max_", 0) is None:
+                est.d_min_, est.d_max_ = np.zeros(1), np.ones(1)
+            cen = np.asarray(est.get_cluster_centers()[c], dtype=float).ravel()
+            row = np.concatenate([cen, 1.0 - cen]) if kind == "Fuzzy" else cen
+            if kind != "ART1" and row.shape == x.shape and np.all(np.isfinite(row)):
+                est.validate_data(row.reshape(1, -1))
+                x = row
+        except (AssertionError, NotImplementedError, ValueError, TypeError):
+            pass
+    elif how == "member":
         x = X[rng.randrange(len(X))].copy()
     elif how == "fresh":
         x = gen_data(rng, kind, 1, d)[0]
